@@ -1,2 +1,2 @@
 (* C13 proofs, collected: full factorial, Plackett-Burman, Box-Behnken, generalized subset designs. *)
-From Artap Require Export Proofs.DoeLists Proofs.DoeFullfact Proofs.DoePB Proofs.DoeBB.
+From Artap Require Export Proofs.DoeLists Proofs.DoeFullfact Proofs.DoePB Proofs.DoeBB Proofs.DoeGSD.
